@@ -21,6 +21,14 @@ structure JState where
   /-- `krt.JoinWithMergeCollection` (stream `joinm`): events come from the collection's own cache, no
       discipline is needed -/
   merge   : Bool := false
+  /-- `krt.NestedJoinWithMergeCollection` (stream `joinn`): `member i` = collection i is in the outer collection -/
+  nested  : Bool := false
+  member  : List Bool := []
+  /-- nested: nothing happened since the last barrier / an outer change waits for its barrier / the rule
+      "the outer collection changes at quiescent points only" was broken (finding F13 otherwise) -/
+  quiet   : Bool := false
+  needSync : Bool := false
+  undisc  : Bool := false
   flagged : Bool := false
   started : Bool := false
   cols    : List (List JObj) := []
@@ -44,8 +52,20 @@ def multi (j : JState) : List Key :=
 def addUnsafe (j : JState) (ks : List Key) : JState :=
   { j with unsafeK := j.unsafeK ++ dedupS (ks.filter (fun k => !j.unsafeK.contains k)) }
 
-def jcontents (j : JState) : FinMap := if j.merge then mergeContents j.cols else joinContents j.cols
-def jlookup (j : JState) (ns : String) : FinMap := if j.merge then mergeLookup j.cols ns else joinLookup j.cols ns
+/-- the collections that take part: all of them, or the members of the outer collection -/
+def activeCols (j : JState) : List (List JObj) :=
+  if j.nested then (j.cols.zip j.member).filterMap (fun p => if p.2 then some p.1 else none) else j.cols
+
+def jobjs (j : JState) : List JObj :=
+  if j.nested then nmergeObjs (activeCols j) else if j.merge then mergeObjs j.cols else joinObjs j.cols
+
+def jcontents (j : JState) : FinMap := (jobjs j).map (fun o => (o.key, o.tok))
+def jlookup (j : JState) (ns : String) : FinMap := ((jobjs j).filter (fun o => o.ns == ns)).map (fun o => (o.key, o.tok))
+
+/-- `Index.Lookup` of the value index (extract = the `+`-separated parts of the value: one key for a plain
+    join, several for a merged object; the bucket changes when the object changes) -/
+def jvlookup (j : JState) (v : String) : FinMap :=
+  (((jobjs j).filter (fun o => (o.val.splitOn "+").contains v)).map (fun o => (o.key, o.tok)))
 
 def touch (j : JState) (k : Key) (i : Nat) : JState :=
   if !j.started || j.merge then j else
@@ -54,17 +74,25 @@ def touch (j : JState) (k : Key) (i : Nat) : JState :=
   let j' := { j with touched := AMap.set j.touched k (l ++ [i]) }
   if l.length + 1 ≥ 2 && j.nsubs > 0 then addUnsafe j' [k] else j'
 
-def jbarrier (j : JState) : JState := { j with touched := [] }
+def jbarrier (j : JState) : JState := { j with touched := [], quiet := true, needSync := false }
+
+/-- an operation on a joined collection (or a registration) -/
+def innerOp (j : JState) : JState :=
+  if j.nested && j.started then { j with quiet := false, undisc := j.undisc || j.needSync } else j
+
+/-- a change of the outer collection -/
+def outerOp (j : JState) : JState :=
+  if j.nested && j.started then { j with undisc := j.undisc || !j.quiet || j.needSync, quiet := false, needSync := true } else j
 
 def startTouched (cols : List (List JObj)) : AMap (List Nat) :=
   let keys := dedupS (cols.flatMap (fun c => c.map (·.key)))
   keys.map (fun k => (k, (List.range cols.length).filter (fun i => ((cols.getD i []).any (fun o => o.key == k)))))
 
-def jInU (j : JState) (k : Key) : Bool := j.flagged && j.unsafeK.contains k
+def jInU (j : JState) (k : Key) : Bool := j.flagged && (j.nested || j.unsafeK.contains k)
 
 def jguard (j : JState) : Option String :=
   if !j.started then some "not-started"
-  else if !j.flagged && !j.unsafeK.isEmpty then some "undisciplined"
+  else if !j.flagged && (!j.unsafeK.isEmpty || j.undisc) then some "undisciplined"
   else none
 
 def janswer (j : JState) (u : Bool) (body : JState → String) : String :=
@@ -75,12 +103,26 @@ def janswer (j : JState) (u : Bool) (body : JState → String) : String :=
 def stepJ (j : JState) (toks : List String) : JState × String :=
   match toks with
   | "case" :: _ :: stream :: n :: rest =>
-    ({ cols := List.replicate (n.toNat?.getD 2) [], flagged := rest.contains "jr", merge := stream.startsWith "joinm" }, "ok")
+    let nn := stream.startsWith "joinn"
+    ({ cols := List.replicate (n.toNat?.getD 2) [], flagged := rest.contains "jr",
+       merge := stream.startsWith "joinm" || nn, nested := nn, member := List.replicate (n.toNat?.getD 2) false }, "ok")
+  | ["o.add", i] =>
+    match i.toNat? with
+    | some i => if i < j.cols.length then ({ outerOp j with member := j.member.set i true }, "ok") else (j, "bad-op")
+    | none => (j, "bad-op")
+  | ["o.del", i] =>
+    match i.toNat? with
+    | some i => if i < j.cols.length then ({ outerOp j with member := j.member.set i false }, "ok") else (j, "bad-op")
+    | none => (j, "bad-op")
+  | ["o.touch", i] =>
+    match i.toNat? with
+    | some i => if i < j.cols.length then ((if j.member.getD i false then outerOp j else j), "ok") else (j, "bad-op")
+    | none => (j, "bad-op")
   | ["c.set", i, o] =>
     match i.toNat?, parseJObj o with
     | some i, some o =>
       if i < j.cols.length then
-        let j' := touch j o.key i
+        let j' := touch (innerOp j) o.key i
         ({ j' with cols := updCol j'.cols i (fun c => jset c o) }, "ok")
       else (j, "bad-op")
     | _, _ => (j, "bad-op")
@@ -89,7 +131,7 @@ def stepJ (j : JState) (toks : List String) : JState × String :=
     | some i =>
       if i < j.cols.length then
         if (jget (j.cols.getD i []) k).isSome then
-          let j' := touch j k i
+          let j' := touch (innerOp j) k i
           ({ j' with cols := updCol j'.cols i (fun c => jdel c k) }, "ok")
         else (j, "ok")
       else (j, "bad-op")
@@ -100,7 +142,7 @@ def stepJ (j : JState) (toks : List String) : JState × String :=
   | ["sync"] => (jbarrier j, "ok")
   | ["sub", name, kind] =>
     if !j.started then (j, "ok") else
-    let j := if kind == "nostate" then jbarrier j else j
+    let j := if kind == "nostate" then jbarrier j else innerOp j
     let j := addUnsafe j (multi j)
     ({ j with nsubs := j.nsubs + 1,
               subs := AMap.set j.subs name (if kind == "nostate" then jcontents j else []) }, "ok")
@@ -120,12 +162,18 @@ def stepJ (j : JState) (toks : List String) : JState × String :=
   | ["lookup", ns] =>
     let j := jbarrier j
     (j, "lookup " ++ janswer j false (fun j => showMap (restrictMap (fun k => !jInU j k) (jlookup j ns))))
+  | ["vlookup", v] =>
+    let j := jbarrier j
+    (j, "vlookup " ++ janswer j false (fun j => showMap (restrictMap (fun k => !jInU j k) (jvlookup j v))))
   | ["ulookup", ns] =>
     let j := jbarrier j
     (j, "ulookup " ++ janswer j true (fun j => showMap (restrictMap (jInU j) (jlookup j ns))))
   | "stream" :: name :: evs =>
     let j := jbarrier j
     (j, "stream " ++ janswer j false (fun j =>
+      if j.flagged && j.nested then
+        (if (AMap.lookup j.subs name).isSome then "accept" else "unknown-subscriber")   -- every key is in U
+      else
       match parseEvents evs, AMap.lookup j.subs name with
       | some es, some m0 =>
         let p := fun k => !jInU j k
